@@ -26,7 +26,7 @@ PLAN = {
     "C01": {"mc": ["MC_Frag", "MC_FragReal"], "drivers": [D("lattice"), D("chains")]},
     "C02": {"mc": ["MC_Frag", "MC_FragReal", "MC_FragLive", "MC_Rx"], "drivers": [D("chains"), D("lattice")]},
     "C03": {"mc": ["MC_Rx", "MC_Crc"], "drivers": [D("rxscn", "--scn", "@gen:Gen_Rx"), D("faults"), D("chains"), D("ext")]},
-    "C04": {"mc": ["MC_Labels"], "drivers": [D("labels"), D("labels", "--scn", "@gen:Gen_Labels"), D("chains")]},
+    "C04": {"apalache": ["ApaLabels"], "mc": ["MC_Labels"], "drivers": [D("labels"), D("labels", "--scn", "@gen:Gen_Labels"), D("chains")]},
     "C05": {"mc": ["MC_Wire", "MC_Rx"], "drivers": [D("fuzzrx"), D("faults"), D("ext")]},
     "C06": {"mc": ["MC_Frag", "MC_FragReal", "MC_Wire"], "drivers": [D("lattice"), D("chains"), D("ext")]},
     "C07": {"mc": ["MC_Rx"], "drivers": [D("rxscn", "--scn", "@gen:Gen_Rx"), D("interleave"), D("frames")]},
@@ -37,7 +37,7 @@ PLAN = {
     "C12": {"mc": ["MC_Crc"], "drivers": [D("crc"), D("chains"), D("lattice"), D("ext")]},
     "C13": {"mc": ["MC_Wire", "MC_Frag"], "drivers": [D("extnew"), D("ext")]},
     "C14": {"mc": ["MC_Header"], "drivers": [D("hdr")], "exhaustive": True},
-    "C15": {"mc": ["MC_Labels"], "drivers": [D("labels"), D("labels", "--scn", "@gen:Gen_Labels"), D("lattice")]},
+    "C15": {"apalache": ["ApaLabels"], "mc": ["MC_Labels"], "drivers": [D("labels"), D("labels", "--scn", "@gen:Gen_Labels"), D("lattice")]},
     "C16": {"mc": ["MC_Rx"], "drivers": [D("rxscn", "--scn", "@gen:Gen_Rx"), D("fuzzrx"), D("faults")]},
     "C17": {"mc": ["MC_Memory"], "drivers": [D("memops"), D("memops", "--scn", "@gen:Gen_Memory")]},
     "C18": {"mc": ["MC_Frag"], "drivers": [D("lattice")]},
